@@ -180,7 +180,18 @@ def rule_pickup_source(ctx):
     if len(shift) != 1:
         return  # the PICKUP rule reports the missing shift
     yv, adv = shift[0].target.id, shift[0].value.id
-    ad = [v for v in defs.get(adv, []) if v is not shift[0].value]
+    # definitions of the subtracted value: `None` placeholders (a helper's "no pickup" result) do not count, aliases are followed
+    def real_defs(name, seen=()):
+        out = []
+        for v in defs.get(name, []):
+            if v is shift[0].value or (isinstance(v, ast.Constant) and v.value is None):
+                continue
+            if isinstance(v, ast.Name) and v.id not in seen and v.id in defs:
+                out.extend(real_defs(v.id, seen + (name,)))
+            else:
+                out.append(v)
+        return out
+    ad = real_defs(adv)
     ctx.require(len(ad) == 1, rule, f.qname, "definition of the actual first-measure duration not found")
     mvars = [k for k, vs in defs.items() for v in vs if "iter_starting(Measure)" in norm(v)]
     ctx.require(len(mvars) == 1, rule, f.qname, "first-measure variable not found")
@@ -1583,39 +1594,69 @@ def rule_transpose_direction_mirror(ctx):
                    "'up' and 'down'; the natural-step distance is a true modulo of natural pitch classes (no alteration folded in)")
     f = ctx.prog.func("partitura.utils.music:_transpose_note_inplace", rule)
     defs = local_defs(f)
-    branches = [i for i in own_nodes(f.node) if isinstance(i, ast.If) and any(isinstance(c, ast.Constant) and c.value in ("up", "down") for c in ast.walk(i.test))
-                and any(isinstance(t, ast.Attribute) and t.attr == "alter" and isinstance(t.ctx, ast.Store) for s in i.body + i.orelse for t in ast.walk(s))]
-    ok = len(branches) == 1 and bool(branches[0].orelse)
-    forms = []
+
+    def dist_of(e, block):
+        """('dist', a, b) when e is (a - b) % 12, directly or through a name defined so (in this branch first)"""
+        if isinstance(e, ast.Name):
+            local = [s.value for s in block if isinstance(s, ast.Assign) and any(norm(t) == e.id for t in s.targets)]
+            cands = local or defs.get(e.id, [])
+            if len(cands) == 1:
+                e = cands[0]
+        if isinstance(e, ast.BinOp) and isinstance(e.op, ast.Mod) and isinstance(e.right, ast.Constant) and e.right.value == 12 \
+                and isinstance(e.left, ast.BinOp) and isinstance(e.left.op, ast.Sub):
+            return ("dist", norm(e.left.left), norm(e.left.right))
+        return None
+
+    def linear(e, block):
+        d = dist_of(e, block)
+        if d is not None:
+            return {d: 1}
+        if isinstance(e, ast.BinOp) and isinstance(e.op, (ast.Add, ast.Sub)):
+            a, b = linear(e.left, block), linear(e.right, block)
+            if a is None or b is None:
+                return None
+            sgn = 1 if isinstance(e.op, ast.Add) else -1
+            out = dict(a)
+            for k, v in b.items():
+                out[k] = out.get(k, 0) + sgn * v
+            return out
+        if isinstance(e, ast.UnaryOp) and isinstance(e.op, ast.USub):
+            a = linear(e.operand, block)
+            return None if a is None else {k: -v for k, v in a.items()}
+        if isinstance(e, ast.Constant) and isinstance(e.value, int):
+            return {"1": e.value}
+        return {norm(e): 1}
+    branches = [i for i in own_nodes(f.node) if isinstance(i, ast.If) and i.orelse
+                and all(any(isinstance(t, ast.Attribute) and t.attr == "alter" and isinstance(t.ctx, ast.Store) for s in blk for t in ast.walk(s)) for blk in (i.body, i.orelse))]
+    ok = len(branches) == 1
+    why = "the alteration is not assigned separately for the two directions (same formula for 'up' and 'down')"
     if ok:
+        forms = []
         for blk in (branches[0].body, branches[0].orelse):
             st = [s for s in blk if isinstance(s, ast.Assign) and any(isinstance(t, ast.Attribute) and t.attr == "alter" for t in s.targets)]
-            lin = _linear(st[0].value, None) if st else None
-            forms.append(lin)
+            forms.append(linear(st[-1].value, blk) if st else None)
         ok = all(x is not None for x in forms)
-    why = "the alteration is not assigned separately for the two directions (same sign for 'up' and 'down')"
-    if ok:
-        a, b = forms
-        keys = set(a) | set(b)
-        same = [k for k in keys if a.get(k, 0) == b.get(k, 0) and a.get(k, 0) != 0]
-        opp = [k for k in keys if a.get(k, 0) == -b.get(k, 0) and a.get(k, 0) != 0]
-        ok = len(same) == 1 and len(opp) == 2 and len(keys) == 3 and all(abs(v) == 1 for v in list(a.values()) + list(b.values()))
-        why = f"up: {a}, down: {b} — expected one common term (the old alteration) and two terms of opposite sign"
         if ok:
-            # the distance term: (x - y) % 12 over natural pitch classes, mirrored
-            dist = [k for k in opp if any(isinstance(v, ast.BinOp) and isinstance(v.op, ast.Mod) for v in defs.get(k, []))]
-            ok = len(dist) == 1 and len(defs[dist[0]]) == 2
-            why = "the natural-step distance is not a modulo of a difference in both directions"
+            a, b = forms
+            da = [k for k in a if isinstance(k, tuple)]
+            db = [k for k in b if isinstance(k, tuple)]
+            pa = {k: v for k, v in a.items() if not isinstance(k, tuple)}
+            pb = {k: v for k, v in b.items() if not isinstance(k, tuple)}
+            why = f"one direction: {a}, the other: {b} — expected old alteration (+1 in both), semitones and natural-step distance with opposite signs"
+            ok = len(da) == 1 and len(db) == 1 and set(pa) == set(pb) and len(pa) == 2 and all(abs(v) == 1 for v in list(a.values()) + list(b.values()))
             if ok:
-                d1, d2 = (v.left for v in defs[dist[0]])
-                ok = isinstance(d1, ast.BinOp) and isinstance(d2, ast.BinOp) and isinstance(d1.op, ast.Sub) and isinstance(d2.op, ast.Sub) and \
-                    norm(d1.left) == norm(d2.right) and norm(d1.right) == norm(d2.left)
-                why = "the two distances are not mirror images of each other"
+                same = [k for k in pa if pa[k] == pb[k]]
+                opp = [k for k in pa if pa[k] == -pb[k]]
+                ok = len(same) == 1 and pa[same[0]] == 1 and len(opp) == 1 and a[da[0]] == -b[db[0]] and a[da[0]] == -pa[opp[0]]
                 if ok:
-                    for nm in (norm(d1.left), norm(d1.right)):
-                        for v in defs.get(nm, []):
-                            if any(isinstance(x, ast.Name) and x.id == same[0] for x in ast.walk(v)) or any(isinstance(x, ast.Attribute) and x.attr == "alter" for x in ast.walk(v)):
-                                ok, why = False, f"`{nm}` folds the old alteration into the pitch class that is then reduced modulo 12 (E## + dd2 wraps an octave)"
+                    ok = da[0][1] == db[0][2] and da[0][2] == db[0][1]
+                    why = f"the two natural-step distances {da[0][1:]} and {db[0][1:]} are not mirror images of each other"
+                    if ok:
+                        for nm in da[0][1:]:
+                            for v in defs.get(nm, []):
+                                if any(isinstance(x, ast.Name) and x.id == same[0] for x in ast.walk(v)) or \
+                                        any(isinstance(x, ast.Attribute) and x.attr == "alter" for x in ast.walk(v)):
+                                    ok, why = False, f"`{nm}` folds the old alteration into the pitch class that is then reduced modulo 12 (E## + dd2 wraps an octave)"
     ctx.check(ok, rule, "alteration arithmetic mirrored between directions", func=f, construct="direction-not-mirrored",
               msg=f"_transpose_note_inplace: {why}: transposing down (or from a note whose alteration crosses the next natural step) gives the wrong alteration")
 
@@ -1701,3 +1742,29 @@ def rule_tuplet_ratio_rounded(ctx):
         ctx.check(not mod1, rule, f"search loop test `{norm(w.test)[:40]}`", func=f, node=w, construct="tuplet-search-modulo-one",
                   msg=f"`{norm(w.test)[:60]}` accepts a quotient only slightly *above* a whole number; one slightly below (27.999999) keeps the search going to a "
                       f"needlessly large ratio")
+
+
+def expand_single_defs(expr, defs, depth=3, keep=()):
+    """copy of `expr` in which every local that has exactly one definition is replaced by that definition (recursively):
+    `e.start.t * time_multiplier` with `time_multiplier = T[i]` reads `e.start.t * T[i]` — hoisting a sub-expression into a
+    named local does not change what a rule sees"""
+    import copy as _copy
+
+    class _E(ast.NodeTransformer):
+        def __init__(self, d):
+            self.d = d
+
+        def visit_Subscript(self, n):
+            # the table that is indexed keeps its name (it identifies the table); the index is expanded
+            if isinstance(n.value, ast.Name):
+                n.slice = self.visit(n.slice)
+                return n
+            return self.generic_visit(n)
+
+        def visit_Name(self, n):
+            if isinstance(n.ctx, ast.Load) and n.id not in keep and len(defs.get(n.id, [])) == 1 and self.d > 0:
+                v = defs[n.id][0]
+                if not isinstance(v, (ast.ListComp, ast.DictComp, ast.SetComp, ast.GeneratorExp, ast.Lambda, ast.Dict, ast.List)):
+                    return _E(self.d - 1).visit(_copy.deepcopy(v))
+            return n
+    return _E(depth).visit(_copy.deepcopy(expr))
